@@ -61,6 +61,16 @@ def shapes():
                        Stmt("out1", ex=["in"], oo=["dd1"], dyndep="dd1", extra_outs=["out1.imp"]),
                        Stmt("out2", ex=["in"], oo=["dd2"], dyndep="dd2", extra_outs=["out2.imp"])]),
     ]))
+    # two statements share a dyndep file; one of them is no longer bound to it while the file on disk still has its entry (the
+    # build refuses that file; the clean tools go on after the loader's error and still know what the other entry says)
+    S.append(("shared_dyndep_file_with_a_stale_entry", [
+        Variant("v0", [Stmt("dd", ex=["dd.in"], copy=True),
+                       Stmt("a.o", ex=["a.c"], oo=["dd"], dyndep="dd", extra_outs=["a.mod"]),
+                       Stmt("b.o", ex=["b.c"], oo=["dd"], dyndep="dd", extra_outs=["b.mod"])]),
+        Variant("v1", [Stmt("dd", ex=["dd.in"], copy=True),
+                       Stmt("a.o", ex=["a.c"], oo=["dd"], dyndep="dd", extra_outs=["a.mod"]),
+                       Stmt("b.o", ex=["b.c"])]),     # still built, no longer bound to the dyndep file
+    ]))
     # a generated header becomes a checked-in one: its statement leaves the manifest, the file stays and is still
     # what the object's recorded dependencies name
     for kind, kw in (("gcc", {"deps": "gcc"}), ("depfile", {"depfile": True})):
@@ -189,12 +199,14 @@ def clean_scenarios(tier="quick"):
         if name in ("two_dyndep", "one_scan_two_dyndep"):
             files = {"dd1.in": "ninja_dyndep_version = 1\nbuild out1 | out1.imp: dyndep\n",
                      "dd2.in": "ninja_dyndep_version = 1\nbuild out2 | out2.imp: dyndep\n"}
+        if name == "shared_dyndep_file_with_a_stale_entry":
+            files = {"dd.in": "ninja_dyndep_version = 1\nbuild a.o | a.mod: dyndep\nbuild b.o | b.mod: dyndep\n"}
         if name == "dyndep_claims_phony_name":
             files = {"ddx": "ninja_dyndep_version = 1\nbuild out | hdr.h: dyndep\n", "hdr.h": "hand-written header\n"}
         if name == "dyndep_claims_other_output":
             files = {"ddx": "ninja_dyndep_version = 1\nbuild out | gen: dyndep\n"}
         T.append(scenario("c18/" + name, "c18", variants, files=files, ops=ops + tools, init=[build],
-                          depth=3 if tier == "quick" else 4, tags=["clean"] + (["invalid-dyndep"] if name.startswith("dyndep_claims") else [])))
+                          depth=3 if tier == "quick" else 4, tags=["clean"] + (["invalid-dyndep"] if name.startswith("dyndep_claims") or name == "shared_dyndep_file_with_a_stale_entry" else [])))
     # cleandead and clean in a project that binds builddir (the logs it consults live there)
     for name, variants in builddir_shapes():
         bv = [variants[0], Variant("v1", [st for st in variants[0].stmts if st.id != "obj2"][:2] + [Stmt("exe", ex=["obj", "r"])], header="builddir = bd")]
@@ -253,7 +265,7 @@ def regen_scenario(tier):
 def readonly_scenarios(tier="quick"):
     T = [regen_scenario(tier)]
     for name, variants in shapes() + builddir_shapes():
-        if name in ("two_dyndep", "one_scan_two_dyndep") or name.startswith("dyndep_claims"):
+        if name in ("two_dyndep", "one_scan_two_dyndep", "shared_dyndep_file_with_a_stale_entry") or name.startswith("dyndep_claims"):
             continue   # C19 is stated for graphs without pending dyndep files
         variants = variants[:1]
         ops, build = _common_ops(variants, damaged_depfile=True)
